@@ -108,6 +108,9 @@ def run(ck: Checker, prog: Program, tier: str):
     from .c15 import check_delivery
     ck.guard(check_delivery, ck, prog, "C01.R7", ["HvsrTraditionalProcessingSettings", "HvsrTraditionalSingleAzimuthProcessingSettings", "HvsrTraditionalRotDppProcessingSettings", "HvsrAzimuthalProcessingSettings", "HvsrDiffuseFieldProcessingSettings"],
              why="the curve would be computed with a different taper / smoothing / method than requested", floor=20)
+    from .common import check_no_narrow_float_buffers
+    ck.guard(check_no_narrow_float_buffers, ck, prog, "C01.R6", ("processing", "smoothing", "timeseries"),
+             "the curve is no longer the defined ratio to double precision and a common factor of the components no longer cancels at extreme scales")
     from .common import check_identity_comparisons as _cic
     ck.guard(_cic, ck, prog, "C01.R1", "C01")
 
